@@ -1,8 +1,29 @@
 """C04 - Unique constraints always hold; a rejected write leaves no trace."""
+import vlib
 from checks import collection_common as cc
+from checks import c10
 
 PROP = "C04"
 OPS = ["add", "add", "update", "update", "remove", "flush"]
+
+
+def _threads(tier, wd):
+    """Thread-level contention for one unique value: BTreeConc.tla with Uniq = TRUE exhaustively, and the real
+    BTreeIndex under every schedule at its yield points (validated against BTreeConcTrace)."""
+    c = c10._conc(tier, wd, groups=["uniq"], cfgs=["MC_BTreeConc_uniq.cfg"])
+    vlib.log(f"[C04] X/T threads: model {c['mc_states']} states; {c['schedules']} schedules, {c['events']} events, "
+             f"failures={len(c['failures'])}")
+    n = 0
+    for mv in c["mc_violated"]:
+        vlib.violation(PROP, {"property": PROP, "kind": "model", **mv})
+        n += 1
+    for fl in c["failures"][:8]:
+        vlib.violation(PROP, {"property": PROP, "kind": "trace", "spec": fl.get("spec", "none"), "tag": fl["tag"],
+                              "reason": fl["reason"], "line_in_trace": fl["line_in_trace"], "event": fl["event"],
+                              "header": fl["header"], "trace": fl["trace"]})
+        n += 1
+    return n, {"states": c["mc_states"] + c["states"], "traces": c["schedules"],
+               "thread_schedules": c["schedules"], "thread_model_states": c["mc_states"]}
 
 
 def run(tier):
@@ -21,10 +42,15 @@ def run(tier):
         "(AddReject/UpdReject leave all variables unchanged) and crashes. T: rejection-heavy workloads; a return "
         "value must be a rejection exactly when the spec says the value is owned (AddReject/UpdReject are the only "
         "actions matching a failed return), and the observation after every rejected call must equal the unchanged "
-        "spec state; crash points of such histories. Thread-level contention is decided by C10's BTreeConc model",
+        "spec state; crash points of such histories. Threads: BTreeConc.tla with Uniq = TRUE (UniqueHolds in every "
+        "state of every interleaving at the yield points of BTreeIndex::insert/remove) and 2-3 real threads claiming "
+        "/ releasing one unique value under every schedule, each step validated against BTreeConcTrace",
         ["sequential callers (concurrent writers: C05 / C10)",
-         "unique scalar field k (values 1 and 3, 2 and 6 collide); multi-field indexes share the same B-tree path"])
+         "unique scalar field k (values 1 and 3, 2 and 6 collide); multi-field indexes share the same B-tree path"],
+        extra=_threads)
 
 
 def replay(payload):
+    if payload.get("spec") == "BTreeConcTrace":
+        return c10.replay(payload)
     return cc.replay(payload)
